@@ -209,3 +209,18 @@ CHECKS["C02"] = {
     "floors": {"C02/sequences": {"leftover_bytes_when_next_rpc_started": 0.3, "concurrent_callers": 0.3}, "C02/stale_from_server": {"stale_packets_sent": 0.4},
                "C02/stale_from_client": {"stale_packets_sent": 0.4, "abandoned_call_before": 0.3}},
 }
+
+CHECKS["C07"] = {
+    "pkg": "./conn",
+    "level": "exploration",
+    "rule": ("1..3 RPCs whose calls are all issued up front from separate goroutines; per stream up to five client goroutines (two senders of multi-frame messages, one or two terminal calls "
+             "Close/CloseSend/cancel, a receiver) and handler goroutines, writer buffer 1 (every frame is its own transport write) or small, split size 1/5/64, both cancel modes, 1..4 of 19 scheduling points held "
+             "(before the write lock, between frames, before terminal packets, around the semaphore and stream publication), stall windows, up to 300 weighted director choices. Oracle on the bytes each "
+             "transport end accepted: whole well-formed frames (reference parser), (stream, message) ids non-decreasing, one kind per id, no frame after the done frame of an id, no trailing partial frame unless a write was rejected, "
+             "accepted by the current drpcwire.Reader; the transport never saw two writes or two reads in flight; Close at most once per end. Non-trivial: more than 8 frames and (consecutive streams or points held)."),
+    "assumptions": E3_ASSUME + ["weak-memory reorderings are only touched by the thorough tier's -race build of the same test"],
+    "subs": [
+        {"test": "TestC07FrameStream", "prop": "C07/frame_stream", "quick": 16000, "thorough": 400000, "shards_quick": 16, "shards_thorough": 16, "gomaxprocs": 1},
+    ],
+    "floors": {"C07/frame_stream": {"consecutive_streams": 0.4, "points": 0.5, "@nontrivial": 0.3}},
+}
